@@ -10,11 +10,11 @@ CHECKS = {
    note="Trusts: synctest's fake clock and quiescence detection; the cooperative-lock rewrite (mutual exclusion preserved, fairness not); the in-memory socket. A stall is judged only after a bound far above any legitimate retransmission schedule.",
    technique="deterministic simulation: exhaustive fault-mask enumeration + seeded fault sampling over real endpoints on a simulated network and clock"),
  "C06": dict(level="fault_enumeration", design="§5 C06",
-   text="Records of an established session are captured and presented to the real receiver in every arrival sequence (with repetition) of length 6 over 4 records (quick) / 7 over 5 (thorough) for replay windows 1, 2, 3 and 64, then in sampled long sessions with displacements around the window edge and windows 1..256, across 13 suite/CID/version configurations. A 20-line reference window model decides, arrival by arrival, must-deliver / must-not-deliver / may-deliver.",
+   text="Records of an established session are captured and presented to the real receiver in every arrival sequence (with repetition) of length 6 over 4 records (quick) / 7 over 5 (thorough) for replay windows 1, 2, 3 and 64, then in sampled long sessions with displacements around the window edge and windows 1..256, across 17 suite/CID/version configurations; DTLS 1.3 runs also replay every accepted record after 1-3 key updates of the sender. A 20-line reference window model decides, arrival by arrival, must-deliver / must-not-deliver / may-deliver.",
    note="Trusts the capture-and-inject harness (each Write yields exactly one datagram, checked) and the model's reading of the statement: fewer than W behind the newest accepted record => exactly once; older => at most once.",
    technique="deterministic simulation: exhaustive arrival-sequence enumeration + seeded reordering/duplication against a reference window model"),
  "C09": dict(level="exploration", design="§5 C09",
-   text="Seeded exploration of goroutine interleavings (yield points at every lock, select and channel send of the instrumented library, parked and released by a seeded controller) of 1-4 concurrent writers per side, handshake retransmissions under loss, injected datagrams provoking alerts, and Close racing writes, over 13 suite/CID/version configurations; a wire monitor independent of the library's codecs checks every emitted record header. DTLS 1.3 records are not decided by this check (encrypted sequence numbers).",
+   text="Seeded exploration of goroutine interleavings (yield points at every lock, select and channel send of the instrumented library, parked and released by a seeded controller) of 1-4 concurrent writers per side, handshake retransmissions under loss, injected datagrams provoking alerts, and Close racing writes, over 13 suite/CID/version configurations; a wire monitor independent of the library's codecs checks every emitted record header. NAT rebinds with an echoing server application make path-validation records race application writes. DTLS 1.3 records are not decided by this check (encrypted sequence numbers).",
    note="Sampling evidence only. Cooperative locks admit barging, a superset of real mutex schedules. DTLS 1.3 sequence numbers are not visible on the wire and are not covered.",
    technique="deterministic simulation: seeded schedule exploration + fault injection with an independent wire monitor"),
  "C12": dict(level="fault_enumeration", design="§5 C12",
@@ -66,7 +66,7 @@ CHECKS = {
    note="The exporter clause is a per-session differential check against a fixed family of public-only derivations, not a proof of secrecy; its RFC value for DTLS 1.2 is checked under C10. Alerts are not among the items the statement lists and may be emitted in clear.",
    technique="deterministic simulation: seeded schedule and fault exploration with marker scanning of all emitted datagrams"),
  "C20": dict(level="exploration", design="§5 C20",
-   text="Seeded exploration of concurrent UpdateKeys calls and writers on both sides of an established DTLS 1.3 session under loss, duplication and reordering of KeyUpdate and ACK records, with late duplicates and a reference-forged future-epoch record; the independent refdtls decoder reads epochs, sequence numbers, KeyUpdate and ACK contents off the wire.",
+   text="Seeded exploration of concurrent UpdateKeys calls and writers on both sides of an established DTLS 1.3 session under loss, duplication and reordering of KeyUpdate and ACK records, with late duplicates, record numbers beyond 2^16 and a reference-forged future-epoch record; the independent refdtls decoder reads epochs, sequence numbers, KeyUpdate and ACK contents off the wire.",
    note="'No longer retained' epochs are not probed (which old epochs are retained is implementation policy); only the not-yet-authorised direction is forged. ACK-before-success is a lower-bound check under concurrency (some KeyUpdate record of the caller acknowledged before each success).",
    technique="deterministic simulation: seeded schedule and fault exploration with reference decoding of protected records"),
  "C03": dict(level="fault_enumeration", design="§5 C03",
